@@ -13,6 +13,7 @@ pub const fn len(l: usize) -> usize {
 }
 /// fri_verify with n_layers = 1, one query: Ok => last_layer_coefficients.len() == 2^bound
 pub fn last_len<const L: usize>(i: &mut Inp) -> Out {
+    crate::compat::cheap_mul();
     let mut coefs = Vec::with_capacity(L);
     let mut k = 0;
     while k < L {
@@ -63,4 +64,55 @@ pub fn last_len<const L: usize>(i: &mut Inp) -> Out {
         check(!(r.is_ok() && (L as u64) != (1u64 << b)), "fri_verify accepted a last layer whose length is not 2^bound"),
         r.is_ok(),
     )
+}
+
+/// fri_verify with n_layers = 1, one query, exactly 2^b coefficients: a query VALUE different
+/// from the last-layer polynomial's value at the query point is rejected.
+pub fn last_value<const L: usize>(i: &mut Inp) -> Out {
+    let mut coefs = Vec::with_capacity(L);
+    let mut k = 0;
+    while k < L {
+        coefs.push(i.felt());
+        k += 1;
+    }
+    let q = i.felt();
+    let v = i.felt();
+    let x = i.felt();
+    let _b = i.u64();
+    let b = (L as u64).trailing_zeros() as u64;
+    crate::compat::assume(x != Felt::ZERO);
+    let shifted = x * Felt::from_hex_unchecked("0x2AAAAAAAAAAAAB0555555555555555555555555555555555555555555555556");
+    crate::compat::assume(shifted != Felt::ZERO);
+    let x_inv = Felt::ONE.field_div(&starknet_core::types::NonZeroFelt::from_felt_unchecked(shifted));
+    crate::compat::assume(x_inv != Felt::ZERO);
+    let pt = Felt::ONE.field_div(&starknet_core::types::NonZeroFelt::from_felt_unchecked(x_inv));
+    let mut honest = Felt::from(0);
+    let mut k = L;
+    while k > 0 {
+        k -= 1;
+        honest = honest * pt + coefs[k];
+    }
+    crate::compat::assume(v != honest);
+    let mut steps = Vec::with_capacity(1);
+    steps.push(Felt::ZERO);
+    let commitment = Commitment {
+        config: Config {
+            log_input_size: Felt::from(b),
+            n_layers: Felt::ONE,
+            inner_layers: Vec::new(),
+            fri_step_sizes: steps,
+            log_last_layer_degree_bound: Felt::from(b),
+        },
+        inner_layers: Vec::new(),
+        eval_points: Vec::new(),
+        last_layer_coefficients: coefs,
+    };
+    let mut values = Vec::with_capacity(1);
+    values.push(v);
+    let mut points = Vec::with_capacity(1);
+    points.push(x);
+    let mut qs = Vec::with_capacity(1);
+    qs.push(q);
+    let r = fri_verify(&qs, commitment, Decommitment { values, points }, Witness { layers: Vec::new() });
+    Out::new(check(r.is_err(), "fri_verify accepted a query value that differs from the last-layer polynomial"), true)
 }
